@@ -62,7 +62,7 @@ var statusCmd = &cobra.Command{
 		var deletedFiles []string
 		for _, entry := range client.Idx.Entries {
 			filePath := string(entry.Path)
-			if f, err := os.Stat(filePath); os.IsNotExist(err) || (err == nil && f.IsDir()) {
+			if f, err := os.Stat(filePath); err != nil || f.IsDir() {
 				deletedFiles = append(deletedFiles, filePath)
 			}
 		}
